@@ -84,10 +84,9 @@ Theorem c06_nothing_foreign_under_the_registry_lock :
 Proof. exact (LockPathsProofs.all_foreign_ok_spec _ (eq_refl : LockPaths.all_foreign_ok CtxLockSites.registry_foreign = true)). Qed.
 Print Assumptions c06_nothing_foreign_under_the_registry_lock.
 
-(** not vacuous: Register does ask the context (before it locks) and dispatch does send (after it unlocked) *)
+(** not vacuous: the regenerated paths do contain foreign operations - Register (a method of the
+    fRegistry interface) asks the caller's context for its op id, and it does so before it locks *)
 Example c06_foreign_operations_exist :
   existsb (fun m => andb (String.eqb (fst m) "fRegistryImpl.Register"%string) (existsb LockPaths.has_foreign (snd m)))
-          CtxLockSites.registry_foreign = true
-  /\ existsb (fun m => andb (String.eqb (fst m) "fRegistryImpl.dispatch"%string) (existsb LockPaths.has_foreign (snd m)))
-             CtxLockSites.registry_foreign = true.
-Proof. split; vm_compute; reflexivity. Qed.
+          CtxLockSites.registry_foreign = true.
+Proof. vm_compute; reflexivity. Qed.
